@@ -891,6 +891,23 @@ C06(cfg, obs) ==
      e \in {e \in nexts : \E e0 \in nexts : e0 < e /\ obs[e0].to = obs[e].to /\ obs[e0].v = -1}}
 
 -----------------------------------------------------------------------------
+\* C13 subscriptions are independent.  rec is a record of a run with two probe sinks on the same
+\* output value: rec.proj[j] = the events of subscription j (every top-level step belongs wholly to
+\* one subscription) with the component names that subscription would have on its own; rec.solo[j] =
+\* the trace of the same real code driven by subscription j's decisions alone.
+FirstDiff(a, b) ==
+  LET n == IF Len(a) < Len(b) THEN Len(a) ELSE Len(b)
+      d == {i \in 1..n : a[i] # b[i]}
+  IN IF d = {} THEN n + 1 ELSE Min(d)
+
+C13(rec) ==
+  UNION {
+    IF rec.proj[j] # rec.solo[j]
+    THEN {W("C13", "differs_from_solo", FirstDiff(rec.proj[j], rec.solo[j]), KNm(j), rec.cfg, "")}
+    ELSE {}
+    : j \in 1..Len(rec.proj)}
+
+-----------------------------------------------------------------------------
 \* dispatcher used by the model configurations (MC_*) and by TraceProps
 PropsOf(p, cfg, obs) ==
   CASE p = "C01" -> C01(cfg, obs)
